@@ -362,6 +362,14 @@ class LayoutTyper(Structured):
         deps = frozenset().union(*[v.deps for v in vals]) if vals else frozenset()
         if arrs and not facs:
             lay = arrs[0].a
+            if len(arrs) == 2:
+                # D padded with singleton axes up to the rank of E, broadcast against an array laid out by E = merge(D, ..): merge lists
+                # D's attributes first, so the padded axes line up with E's trailing attributes
+                for x, y in ((arrs[0], arrs[1]), (arrs[1], arrs[0])):
+                    if isinstance(x.a, tuple) and x.a[0] == 'pad' and isinstance(y.a, tuple) and y.a[0] == 'merge' and y.a[1] == x.a[1] \
+                            and any(isinstance(f_, tuple) and f_[0] == 'padded-to' and f_[1] == y.a for f_ in (x.flags or ())):
+                        rep('elementwise', node, True, 'operand laid out by %s, padded to the rank of %s, broadcast against %s' % (show(x.a[1]), show(y.a), show(y.a)))
+                        return V('arr', y.a, deps=deps)
             if len(arrs) > 1:
                 same = all(a.a == lay for a in arrs)
                 rep('elementwise', node, same, 'operands laid out by ' + ' / '.join(show(a.a) for a in arrs))
@@ -638,7 +646,20 @@ class LayoutTyper(Structured):
             D = self.shape_of(shape.left, env)
             if D is not None and arr.kind == 'arr' and self.is_ones_pad(shape.right):
                 if arr.a == D:
-                    return V('arr', ('pad', D), deps=arr.deps)
+                    # how many singleton axes: `len(E) - len(D)` pads D up to the rank of E (recorded for broadcasting against E)
+                    upto = None
+                    k_ = shape.right
+                    if isinstance(k_, ast.Call) and isinstance(k_.func, ast.Name) and k_.func.id == 'tuple' and len(k_.args) == 1:
+                        k_ = k_.args[0]
+                    if isinstance(k_, ast.BinOp) and isinstance(k_.op, ast.Mult):
+                        cnt = k_.right if isinstance(k_.left, (ast.List, ast.Tuple)) else k_.left
+                        cnt = expand(cnt, self.defs)
+                        if isinstance(cnt, ast.BinOp) and isinstance(cnt.op, ast.Sub) and all(
+                                isinstance(x, ast.Call) and U(x.func) == 'len' and len(x.args) == 1 for x in (cnt.left, cnt.right)):
+                            big, small = self.dom_term(cnt.left.args[0], env), self.dom_term(cnt.right.args[0], env)
+                            if small == D and big is not None:
+                                upto = big
+                    return V('arr', ('pad', D), deps=arr.deps, flags={('padded-to', upto)} if upto is not None else frozenset())
                 return V('arr', ('positional', 'reshape of %s by the shape of %s' % (show(arr.a), show(D))), deps=arr.deps)
         pad = self.pad_shape(shape, env)
         if pad is not None and arr.kind == 'arr':
